@@ -59,14 +59,14 @@ def EXHAUSTIVE(tier):
 def thresholds(tier):
     if tier == "thorough":
         return {"graph_compared": 60000, "eager_compared": 60000, "exprs": 50000, "distinct_nontrivial": 40000,
-                "graph_path:Gather": 200, "graph_path:Slice": 5000, "graph_path:Slice>Squeeze": 2000,
-                "graph_path:Slice>Gather": 20, "eager_path:Gather": 200, "eager_path:Slice": 5000,
+                "graph_path:Gather": 80, "graph_path:Slice": 5000, "graph_path:Slice>Squeeze": 2000,
+                "graph_path:Slice>Gather": 20, "eager_path:Gather": 70, "eager_path:Slice": 5000,
                 "neg_step_default_bound": 2000, "tensor_index_bindings": 2000,
                 "anchor:onnxscript._internal.converter:Converter._translate_subscript_expr": 20000,
                 "anchor:onnxscript.tensor:Tensor.__getitem__": 20000}
     return {"graph_compared": 2500, "eager_compared": 2500, "exprs": 1500, "distinct_nontrivial": 1200,
-            "graph_path:Gather": 60, "graph_path:Slice": 500, "graph_path:Slice>Squeeze": 100,
-            "graph_path:Slice>Gather": 10, "eager_path:Gather": 60, "eager_path:Slice": 500,
+            "graph_path:Gather": 30, "graph_path:Slice": 500, "graph_path:Slice>Squeeze": 100,
+            "graph_path:Slice>Gather": 10, "eager_path:Gather": 40, "eager_path:Slice": 500,
             "neg_step_default_bound": 200, "tensor_index_bindings": 400,
             "anchor:onnxscript._internal.converter:Converter._translate_subscript_expr": 1500,
             "anchor:onnxscript.tensor:Tensor.__getitem__": 1500}
@@ -317,6 +317,7 @@ def run_case(spec):
 
     compared = set()
     reported = set()
+    culprits = {}
     disputed = [0]
 
     def judge(path, ei, bi, got, unit, oi):
@@ -338,7 +339,10 @@ def run_case(spec):
         if mech is not None:
             key = f"path={path};cond={mech};kind={kind}"
         else:
-            key = f"path={path};cond=unexplained;form={form};kind={kind}"
+            ck = (path, form, kind)
+            if ck not in culprits:
+                culprits[ck] = _culprit(path, exprs[ei], bindings[bi])
+            key = f"path={path};cond=unexplained;form={culprits[ck]};kind={kind}"
         if (key, ei) in reported:
             hit("violating_bindings")
             return
@@ -351,6 +355,43 @@ def run_case(spec):
                 pass
         viol.append({"key": key, "what": f"{path}: {G.expr_text(exprs[ei])} on shape {tuple(shape)} {dtype}"
                      f"{' with ' + str(bindings[bi]) if bindings[bi] else ''}: {text}", "detail": det})
+
+    def _run_single(path, expr, binding):
+        u = Unit([expr], dtype, sorted(G.expr_vars(expr)))
+        if u.error:
+            return None
+        try:
+            if path == "graph":
+                u.graph_prepare()
+                return u.graph_run(X, binding)[0]
+            return u.eager_run(X, binding)[0]
+        except Exception:
+            return None
+
+    def _culprit(path, expr, binding):
+        """Coarse mechanism predicate for a difference no known deviation explains: replace components by ':' one at a
+        time while the (still unexplained) difference persists; what remains are the component classes that are needed
+        to provoke it (positions dropped).  Keeps the number of distinct keys small when one defect hits many forms."""
+        cur = [list(c) for c in expr]
+        for a in range(len(cur)):
+            if cur[a][0] == "full":
+                continue
+            cand = cur[:a] + [["full"]] + cur[a + 1:]
+            if all(c[0] == "full" for c in cand):
+                continue
+            hit("culprit_reduction_runs")
+            got2 = _run_single(path, cand, binding)
+            if got2 is None:
+                continue
+            try:
+                w2 = G.numpy_eval(cand, X, binding)
+            except Exception:
+                continue
+            if _differs(got2, w2) is None or G.explain(path, cand, X, binding, got2) is not None:
+                continue
+            cur = cand
+        cls = [c for c in G.form_of(cur, binding).split("+") if c != "full"]
+        return "+".join(cls) or "full"
 
     def _disputes(path, unit, oi, ei, bi, got):
         """Asymmetric trust (DESIGN 2.3, external-oracle form): a difference ORT-vs-NumPy is *disputed* when the
